@@ -193,7 +193,13 @@ class Sim:
         bm = base_of_member(t) if t.k == "MemberExpr" else None
         if bm and bm[0] == self.base and bm[1] == "pos":
             op = n.get("op")
-            if n.k == "UnaryOperator":
+            step1 = n.k == "UnaryOperator" or (op == "+=" and C.const_of(n.child(1)) == 1)
+            if op == "=":
+                r_ = n.child(1).strip_all_casts()
+                if r_.k == "BinaryOperator" and r_.get("op") == "+" and C.const_of(r_.child(1)) == 1 and \
+                        r_.child(0).strip_all_casts().k == "MemberExpr" and base_of_member(r_.child(0).strip_all_casts()) == bm:
+                    step1 = True
+            if step1:
                 if self.wild:
                     self.problems.append(("L4", n, "cursor stepped while it may point past the end of input"))
                 self.bump("moved")
